@@ -1051,7 +1051,11 @@ def report(ctx, fails, res, do_shrink=True):
     n = 0
     for c, qi, reason, src in fails:
         fam = c['family']
-        lost = fallout_points(c)
+        # attribution to the octree fall-out (fixed in /repo 7a2f8fc) is only attempted while an
+        # open known finding names it; the replay emulates the descent of the code before the fix
+        fallout_open = any(f.get('property') == PID and f.get('status') == 'open'
+                           and f.get('match', {}).get('cause') == 'octree-fallout' for f in ctx.findings)
+        lost = fallout_points(c) if fallout_open else []
         if lost and c['fn'] in ('knn', 'hd') and src != 'impl' and explained_by_fallout(c, res[c['id']]):
             # the float octree construction drops a stored point of this very input
             sig = {'fn': c['fn'], 'cause': 'octree-fallout'}
